@@ -4,7 +4,10 @@ package main
 
 import (
 	"errors"
+	"net"
 	"net/rpc"
+	"sync"
+	"time"
 
 	rh "github.com/tinode/chat/server/ringhash"
 )
@@ -39,6 +42,56 @@ func verifCallAsync(n *ClusterNode, proc string, req, resp any, done chan *rpc.C
 	return call
 }
 
+// ---- native (replay) transport: a real net/rpc client per node over an in-memory pipe; the fake
+// service hands out the scripted replies in arrival order, one at a time.
+type VerifVoteSvc struct {
+	mu        sync.Mutex
+	next      int
+	delivered int
+}
+
+func (s *VerifVoteSvc) Vote(req *ClusterVoteRequest, resp *ClusterVoteResponse) error {
+	s.mu.Lock()
+	ticket := s.next
+	s.next++
+	s.mu.Unlock()
+	for {
+		s.mu.Lock()
+		turn := s.delivered == ticket
+		s.mu.Unlock()
+		if turn {
+			break
+		}
+		time.Sleep(time.Millisecond)
+	}
+	defer func() {
+		go func() {
+			time.Sleep(3 * time.Millisecond)
+			s.mu.Lock()
+			s.delivered++
+			s.mu.Unlock()
+		}()
+	}()
+	r := verifVoteReplies[ticket]
+	if r.lost {
+		return errors.New("lost")
+	}
+	resp.Result, resp.Term = r.result, r.term
+	return nil
+}
+
+func verifNativeEndpoints(c *Cluster) {
+	svc := &VerifVoteSvc{}
+	for _, n := range c.nodes {
+		srv := rpc.NewServer()
+		srv.RegisterName("Cluster", svc)
+		a, b := net.Pipe()
+		go srv.ServeConn(a)
+		n.endpoint = rpc.NewClient(b)
+		n.rpcDone = make(chan *rpc.Call, 8)
+	}
+}
+
 func verifCluster(nOthers int) *Cluster {
 	verifNewStore()
 	verifInitGlobals()
@@ -54,7 +107,7 @@ func verifCluster(nOthers int) *Cluster {
 	c.ring.Add(all...)
 	c.fo = &clusterFailover{
 		activeNodes:        all,
-		heartBeat:          1000,
+		heartBeat:          2 * time.Second,
 		voteTimeout:        3,
 		nodeFailCountLimit: 3,
 		healthCheck:        make(chan *ClusterHealth, 3),
@@ -81,6 +134,9 @@ func harnessC17Elect(nOthers int) {
 		verifAssume(t >= 0 && t < 1<<30)
 		r.term = t
 		verifVoteReplies = append(verifVoteReplies, r)
+	}
+	if !verifIsSymbolicEngine() {
+		verifNativeEndpoints(c)
 	}
 	c.electLeader()
 	// count the grants the candidate actually received before it stopped counting is not observable;
